@@ -12,7 +12,7 @@ CLAIMED = {
          'proof in Coq (parser/printer inversion for the component grammar) + byte-exact correspondence + verified strict component reader as oracle'),
  'C03': ('7 C03', 'Coq theorems C03_decode (dec_fdata (fdata_body o n slots) = (o, n, slots), nothing left), C03_rows / C03_count (one type-0 IFLR per row, numbered in input order, never dropped), C03_file (C02 instantiated); values are bit patterns; tie: frames over 8 dtypes x byte order x width x layout x cast x source kind, every frame-data record read back by the strict reader decoded with the declared layout and compared bit for bit with numpy-computed expectations, and with the model encoder',
          'proof in Coq (decoder inversion by induction over slots and elements) + reader judgement of real files + correspondence'),
- 'C05': ('7 C05', 'Coq theorems C05_assign_value / C05_assign_units (an assignment stores exactly the converter result in exactly the assigned part; everything else unchanged) and C05_value_readback (stored value -> decoded value), C05_api_frame (no API call touches the attribute state of an existing object except an assignment to it), C05_record_is_the_set (every record decodes to exactly the set of the state the encoder leaves) and C05_write_changes_only_defaults (a write, successful or not, in every reachable state changes attribute values / units only at the write-time default sites, and only where nothing or a falsy value was given; the site list is regenerated from the syntax trees of /repo on every run and proved equal to the sites of the theorem in GenFacts/SitesOK.v) over Model/Convert.v + Model/Builder.v + Model/Write.v (schema regenerated from /repo); the composition into the end-to-end claim is checked per run: K-api byte-exact correspondence of whole programs with the model, and every decoded attribute of implementation output compared with the last accepted assignment computed from the operation list; attribute state of every object before / after DLISFile.write compared against the regenerated sites',
+ 'C05': ('7 C05', 'Coq theorems C05_assign_value / C05_assign_units (an assignment stores exactly the converter result in exactly the assigned part; everything else unchanged) and C05_value_readback (stored value -> decoded value), C05_api_frame (no API call touches the attribute state of an existing object except an assignment to it), C05_record_is_the_set (every record decodes to exactly the set of the state the encoder leaves), C05_file_content (end to end: a returned file is one group of records per logical file, every set record decoding to the set as it stands in the state the write leaves; no set shared between logical files) and C05_write_changes_only_defaults (a write, successful or not, in every reachable state changes attribute values / units only at the write-time default sites, and only where nothing or a falsy value was given; the site list is regenerated from the syntax trees of /repo on every run and proved equal to the sites of the theorem in GenFacts/SitesOK.v) over Model/Convert.v + Model/Builder.v + Model/Write.v (schema regenerated from /repo); the composition into the end-to-end claim is checked per run: K-api byte-exact correspondence of whole programs with the model, and every decoded attribute of implementation output compared with the last accepted assignment computed from the operation list; attribute state of every object before / after DLISFile.write compared against the regenerated sites',
          'proof in Coq (frame rules of assignment, of the API and of the write; record = set; value read-back) + byte-exact K-api correspondence + reader judgement against op-list expectations (partial: no single end-to-end theorem)'),
  'C07': ('7 C07', 'Coq theorems C07_identity_in_set / C07_copy_numbers: in every reachable builder state (induction over all operation lists incl. rejected calls) the copy number of an object is the number of earlier same-named objects of its set, hence (name, copy) is injective per set; C07_reference_roundtrip; refuted across named sets (C07_refuted_named_sets = known finding D13); tie: K-api correspondence, decoded identities / references / origins of implementation output',
          'proof in Coq (invariant by induction over operation lists) + K-api correspondence + reader judgement'),
@@ -26,11 +26,11 @@ CLAIMED = {
          'proof in Coq (induction over balanced operation sequences) + K-api correspondence + reader judgement'),
  'C18': ('7 C18', 'Coq theorems C18_frames (per-frame numbering from 1) and C18_lf_records; the rejection clause is refuted in the model (C18_refuted_shared_default_sets) and recorded as known finding D12; tie: multi-logical-file programs (distinct / default / partially shared set names, interleaved calls): K-api correspondence and per-logical-file inventories of decoded implementation output',
          'proof in Coq + K-api correspondence + reader judgement (known finding D12 for shared set names)'),
- 'C20': ('7 C20', 'Coq theorem C20_reject: every rejected operation (add_* of every type at every rejection point, assignment, add_logical_file) leaves objects, registration lists, no-format data, data dictionary, headers and mode unchanged (only empty sets may appear: their registry position is known finding D22, witnessed in the model by C20_refuted_set_position); C20_copy_numbers; tie: K-api correspondence and, for every program with rejected calls, decoded inventory equality with the same history without them',
+ 'C20': ('7 C20', 'Coq theorem C20_reject: every rejected operation (add_* of every type at every rejection point, assignment, add_logical_file) leaves objects, registration lists, no-format data, data dictionary, headers and mode unchanged (only empty sets may appear, and they are invisible: C20_reject_invisible / C20_single_lf_reject_invisible; D22, their registry position, was repaired in /repo: C20_set_position_repaired); C20_copy_numbers; C20_failed_write_keeps_the_specification (a failing write leaves sets, registries, types and every given value / unit untouched, adding at most write-time defaults where nothing was given); tie: K-api correspondence and, for every program with rejected calls, decoded inventory equality with the same history without them',
          'proof in Coq (case analysis of the step function) + K-api correspondence + differential histories'),
  'C11': ('7 C11', 'Coq theorems C11_sources (direct-slice path of a structured source = generic per-channel path), C11_window (loading from the window = loading from pre-sliced arrays), C11_chunks (for every input chunk size the rows produced are exactly rows [from, to) in frame channel order) over Model/Data.v; tie: the same data through inline / dict / structured array / HDF5 with permuted fields, extra datasets, dataset-name mapping, all windows and chunk sizes: byte-identical files, equal to the pre-sliced reference; K-api correspondence of the dict route',
          'proof in Coq (slice/zip algebra by induction) + differential execution across source kinds + K-api correspondence'),
- 'C12': ('7 C12', 'Coq theorems C12_physical (whatever the physical writer returns reads back), C12_explicit (whatever the set encoder returns decodes to the set), C12_rejects_ident/text/uvari/unorm (exact domains: over-long, non-ASCII, out-of-range are Err), C12_rejects_incomplete (a successful check_objects implies origin, channels, frames and registered frame channels), C12_rejects_bad_data (a successful frame set-up implies every data set present, supported dtype, at most 2-D), C12_api_returned_file_is_well_formed (whatever the modelled write returns has the layout and is accepted record by record by the complete strict reader); faithfulness of the CONTENT is checked per run: valid programs with ONE injected invalidity and data-level invalid inputs: the write raises, or the returned file is decoded by the strict reader and judged faithful (C05/C07/C09 predicates)',
+ 'C12': ('7 C12', 'Coq theorems C12_physical (whatever the physical writer returns reads back), C12_explicit (whatever the set encoder returns decodes to the set), C12_rejects_ident/text/uvari/unorm (exact domains: over-long, non-ASCII, out-of-range are Err), C12_rejects_incomplete (a successful check_objects implies origin, channels, frames and registered frame channels), C12_rejects_bad_data (a successful frame set-up implies every data set present, supported dtype, at most 2-D), C12_api_returned_file_is_well_formed (whatever the modelled write returns has the layout and is accepted record by record by the complete strict reader), C12_api_returned_file_is_faithful (and its set records decode to the sets of the final specification state); faithfulness of the CONTENT is checked per run: valid programs with ONE injected invalidity and data-level invalid inputs: the write raises, or the returned file is decoded by the strict reader and judged faithful (C05/C07/C09 predicates)',
          'proof in Coq of the components (exact domains, preconditions of a successful write) + malformed-input stream judged by the verified reader (well-formedness of every returned file is a theorem; content faithfulness per run)'),
  'C13': ('7 C13', 'Coq theorem C13_index over exact integer arithmetic (Model/Data.v index_stats): INDEX-MIN/MAX are the attained minimum/maximum; SPACING only for >= 2 rows and only when every difference equals it or lies within (1 - d/s)^2 < 1/1000 of the non-zero median; DIRECTION reflects the monotone sense; single row: neither; tie: decoded FRAME attributes of real files over all dtypes / patterns / windows / user values vs the model statistics; known finding D9 for repeated writes with other data',
          'proof in Coq (exact arithmetic; partial for inexact float data) + reader judgement of real files + K-api correspondence'),
